@@ -103,9 +103,70 @@ Section TypstProofs.
 
   Definition top_ok (top : list tnode) : Prop := tn_ok 0 (TGroup top).
 
-  Theorem typst_parse_exact top : top_ok top -> typst_parse lex bs top = Ok (flat_map tr_spec top).
-  Proof. intros H. exact (tr_exact (TGroup top) (mkcur 0 0) (cur_ok_start bs) H). Qed.
+  (* Typst::parse = the cursor-free translation, then the retain filter of b629a93 *)
+  Theorem typst_parse_exact top : top_ok top -> typst_parse lex bs top = Ok (typst_retain 0 (flat_map tr_spec top)).
+  Proof.
+    intros H. unfold typst_parse, typst_translate.
+    rewrite (tr_exact (TGroup top) (mkcur 0 0) (cur_ok_start bs) H). reflexivity.
+  Qed.
 End TypstProofs.
+
+(* ---- the retain filter (b629a93): source order of the emitted tokens is enforced by the code ---- *)
+
+(* every token starts at or after `covered`, which then grows to the max of the ends seen *)
+Fixpoint toks_after (c : nat) (l : list tok) : Prop :=
+  match l with
+  | [] => True
+  | t :: r => c <= sstart (tspan t) /\ toks_after (Nat.max c (send (tspan t))) r
+  end.
+
+Lemma typst_retain_chain : forall l c, toks_after c (typst_retain c l).
+Proof.
+  induction l as [|t r IH]; intros c; cbn [typst_retain]; [exact I|].
+  destruct (Nat.ltb_spec (sstart (tspan t)) c); [apply IH|]. cbn [toks_after]. split; [assumption|apply IH].
+Qed.
+
+Lemma toks_after_all : forall l c, toks_after c l -> Forall (fun t => c <= sstart (tspan t)) l.
+Proof.
+  induction l as [|t r IH]; intros c H; [constructor|]. cbn [toks_after] in H. destruct H as [H1 H2]. constructor; [assumption|].
+  eapply Forall_impl; [|exact (IH _ H2)]. cbn beta. intros u Hu. lia.
+Qed.
+
+(* for ANY token list (any tree, any lexer, contract or not) and any starting value: in what the filter keeps every
+   token starts at or after `covered` and at or after the END of every token kept before it — the kept tokens are in
+   source order and pairwise disjoint; with well-formed spans the starts are non-decreasing *)
+Theorem typst_retain_ordered : forall l c,
+  Forall (fun t => c <= sstart (tspan t)) (typst_retain c l) /\
+  ForallOrdPairs (fun a b => send (tspan a) <= sstart (tspan b)) (typst_retain c l).
+Proof.
+  intros l c. pose proof (typst_retain_chain l c) as H. split; [now apply toks_after_all|].
+  remember (typst_retain c l) as k eqn:E. clear E l. revert c H.
+  induction k as [|t r IH]; intros c H; [constructor|]. cbn [toks_after] in H. destruct H as [H1 H2].
+  constructor; [|exact (IH _ H2)].
+  eapply Forall_impl; [|exact (toks_after_all _ _ H2)]. cbn beta. intros u Hu. lia.
+Qed.
+
+(* the filter only drops: what is kept is a sub-sequence, and a list that is already in source order is kept whole *)
+Lemma typst_retain_sub : forall l c t, In t (typst_retain c l) -> In t l.
+Proof.
+  induction l as [|x r IH]; intros c t H; cbn [typst_retain] in H; [contradiction|].
+  destruct (sstart (tspan x) <? c); [right; eapply IH; exact H|]. destruct H as [<-|H]; [now left|right; eapply IH; exact H].
+Qed.
+
+Lemma typst_retain_id : forall l c, toks_after c l -> typst_retain c l = l.
+Proof.
+  induction l as [|t r IH]; intros c H; [reflexivity|]. cbn [toks_after] in H. destruct H as [H1 H2]. cbn [typst_retain].
+  destruct (Nat.ltb_spec (sstart (tspan t)) c); [lia|]. now rewrite (IH _ H2).
+Qed.
+
+(* C04_typst_source_order: whatever tree typst-syntax hands over — in or out of the range contract —, when Typst::parse
+   returns, its tokens are in source order and pairwise disjoint *)
+Theorem typst_parse_source_order lex bs top toks : typst_parse lex bs top = Ok toks ->
+  ForallOrdPairs (fun a b => send (tspan a) <= sstart (tspan b)) toks.
+Proof.
+  unfold typst_parse. destruct (typst_translate lex bs top) as [l|]; cbn [bind]; [|discriminate].
+  intros H. inversion H. apply typst_retain_ordered.
+Qed.
 
 (* a node's char span denotes the text of its byte range (with C04_byte_to_char_spans' cidx lemma): the span of a
    TLeaf / TTok token, and the start of a TText / TStr token list *)
@@ -134,8 +195,11 @@ Example typst_translate_example :
               TLeaf (Some (16, 17)) 2001%N; TLeaf (Some (17, 20)) 2%N; TLeaf None 2%N] in
   top_ok (encode src) top /\
   typst_parse lex (encode src) top
-  = Ok [mktok (mkspan 0 2) 5%N; mktok (mkspan 3 7) 2%N; mktok (mkspan 9 13) 5%N; mktok (mkspan 15 16) 2001%N; mktok (mkspan 16 19) 2%N].
-Proof. cbv zeta. split; [vm_compute; repeat split; try lia; reflexivity|vm_compute; reflexivity]. Qed.
+  = Ok [mktok (mkspan 0 2) 5%N; mktok (mkspan 3 7) 2%N; mktok (mkspan 9 13) 5%N; mktok (mkspan 15 16) 2001%N; mktok (mkspan 16 19) 2%N] /\
+  (* b629a93: a sub-node handed out twice (the callee token again behind the argument) is dropped the second time *)
+  typst_parse lex (encode src) [TNode (Some (4, 16)) [TTok (Some (4, 8)) 2%N; TStr (Some (9, 15)) [34; 97; 92; 34; 98; 34]%N; TTok (Some (4, 8)) 2%N]]
+  = Ok [mktok (mkspan 3 7) 2%N; mktok (mkspan 9 13) 5%N].
+Proof. cbv zeta. split; [vm_compute; repeat split; try lia; reflexivity|split; vm_compute; reflexivity]. Qed.
 
 (* ---- which arms lex prose: read off the GENERATED table of typst_translator.rs's match arms ---- *)
 Require Import Tables_typst.
@@ -147,3 +211,10 @@ Lemma typst_prose_arms :
   map fst (filter (fun p => is_prose_arm (snd p)) typst_arms) = ["Text"%string; "Str"%string] /\
   List.length typst_arms = 29.
 Proof. split; reflexivity. Qed.
+
+(* ---- 3103238 (F34): the emission order of the Set / Show arms and of parse_args_ignored, read off the GENERATED table ---- *)
+Lemma typst_arm_order_table :
+  typst_arm_order = [("Set"%string, ["target"%string; "args"%string; "condition"%string]);
+                     ("Show"%string, ["selector"%string; "transform"%string])] /\
+  typst_ignored_args_in_text_order = true /\ typst_parse_has_retain_filter = true.
+Proof. repeat split; reflexivity. Qed.
